@@ -86,7 +86,7 @@ Section Samplers.
     if eqb O p 1 then (1, s) else if eqb O p z0 then (z0, s)
     else let (u, s') := f64 s in (if p >? u then 1 else z0, s').
 
-  (** ** DiscreteUniform: [alea::i64_in_range(lower, upper) as f64] *)
+  (** ** DiscreteUniform: [(lower + alea::i64_less_than(upper - lower + 1)) as f64] = the source's range draw *)
   Definition discrete_uniform_sample (lo hi : Z) (s : S) : res (T * S) :=
     let+ (k, s') := next_range src lo hi s in Ok (of_i64 O k, s').
 
@@ -215,7 +215,7 @@ Section Samplers.
   Definition binomial_inversion (fuel : nat) (n : N) (p : T) (s : S) : res (N * S) :=
     let sq := p / (1 - p) in
     let a := int (Z.of_N n + 1) * sq in
-    let r0 := powf O (1 - p) (int (Z.of_N n)) in
+    let r0 := exp (int (Z.of_N n) * f1 O Ln1p (- p)) in
     let nf := int (Z.of_N n) in
     let bound := fmin O nf (nf * p + int 10 * sqrt O (nf * p * (1 - p) + 1)) in
     let (u, s') := f64 s in
@@ -407,5 +407,10 @@ Section Samplers.
 End Samplers.
 
 (** the source given by the executable model of `alea` (state = the u64 generator state) *)
+(** the range draw of [DiscreteUniform::sample] as repaired for D11: [lower + alea::i64_less_than(upper - lower + 1)]
+    (wrapping i64 arithmetic).  Unlike [alea::i64_in_range] it has no [assert!(max > min)]: the degenerate law
+    [lower = upper] consumes one word and returns [lower] (coverage audit: the equal-bounds cases pin this). *)
+Definition alea_range (fuel : nat) (lo hi : Z) (s : rng) : res (Z * rng) :=
+  res_bind (Rng.i64_less_than fuel (Rng.iwrap (Rng.iwrap (hi - lo) + 1)) s) (fun p => Ok (Rng.iwrap (lo + fst p), snd p)).
 Definition alea_source {T : Type} (O : Ops T) (range_fuel : nat) : source rng T :=
-  {| next_u64 := Rng.u64; next_f64 := Rng.f64 O; next_range := Rng.i64_in_range range_fuel |}.
+  {| next_u64 := Rng.u64; next_f64 := Rng.f64 O; next_range := alea_range range_fuel |}.
